@@ -90,6 +90,7 @@ def handle (prop : String) (line : String) : String :=
       | "buildvh" => opBuildV (args.take 4) res   -- same configuration, reached on a reused builder
       | "buildh" => opBuild prop (args.take 5) res
       | "buildafter" => opBuild prop (args.take 5) res
+      | "buildafterx" => opBuild prop args res
       | "classify" => opClassify args res
       | "build" => opBuild prop args res
       | "buildx" =>
@@ -107,13 +108,19 @@ def handle (prop : String) (line : String) : String :=
          | _ => { spec := some "bad-args" })
       | "term" => opTerm args res
       | "termx" => opTerm args res
+      | "termt" => opTerm args res
+      | "termp" => opTerm args res
       | "svg" => opSvg prop args res
+      | "svgt" => opSvg prop args res
       | "wasm" => opWasm args res
+      | "wasmn" => { (opWasm args res) with model := none }   -- NaN / infinite options: no dyadic model
       | "hist" => opHist args res
       | "after" => opAfter args res
+      | "afterx" => opAfter args res
       | "reuse" => opReuse args res
       | "file" => opFile args res
       | "pix" => opPix args res
+      | "pixt" => opPix args res
       | "pixframe" => opPixFrame args res
       | "pixh" => opPixH args res
       | "pixsvg" => opPixSvg args res
